@@ -3,6 +3,7 @@ package checks
 import (
 	"fmt"
 	"os"
+	"strings"
 	"verif/ref"
 
 	"verif/fw"
@@ -75,7 +76,11 @@ func init() {
 			return
 		}
 		x := newC13()
-		for _, mv := range []string{"headers-open-block", "continuation-unfinished-field", "continuation-unfinished-field", "continuation-unfinished-field", "continuation-unfinished-field", "continuation-unfinished-field"} {
+		moves := []string{"headers-open-block", "continuation-unfinished-field", "continuation-unfinished-field", "continuation-unfinished-field", "continuation-unfinished-field", "continuation-unfinished-field"}
+		if os.Getenv("C13DBG_MOVES") != "" {
+			moves = strings.Split(os.Getenv("C13DBG_MOVES"), ",")
+		}
+		for _, mv := range moves {
 			fmt.Println("menu:", x.menu())
 			x.apply(mv)
 			r, s, d := x.check()
